@@ -608,5 +608,23 @@ mut("19-new-nonce-tagged-with-session-id", "C19", "source:RandomInt256@", (H, "	
 mut("20-hosts-matched-by-suffix", "C20", "membership-is-byte-equality", ("telegram/deeplinks/utils.go", "		if l[i] == s {\n", "		if l[i] == s || strings.HasSuffix(s, \".\"+l[i]) {\n"))
 mut("20N-hosts-compared-in-a-switch", "C20", None, ("telegram/deeplinks/utils.go", "		if l[i] == s {\n			return true\n		}\n", "		switch l[i] {\n		case s:\n			return true\n		}\n"))
 
+# --- twelfth round --------------------------------------------------------------------------------------
+mut("01-interface-fit-uses-elem", "C01", "reflect:", (DEC, "		if val == nil || !reflect.TypeOf(val).ConvertibleTo(value.Type()) {", "		if val == nil || reflect.ValueOf(val).Pointer() == 0 || !reflect.TypeOf(val).ConvertibleTo(value.Type()) {"))
+mut("02-int128-padded-from-shared-array", "C02", "global-write", ("internal/encoding/tl/common_types.go", "func (i *Int128) MarshalTL(e *Encoder) error {\n", "var seedPad [Int128Len]byte\n\nfunc (i *Int128) MarshalTL(e *Encoder) error {\n	copy(seedPad[:], i.Bytes())\n"))
+mut("05-tempkeys-digest-over-padded", "C05", "digest-covers-the-payload", (AES, "	hash := dry.Sha1Byte(msg)\n\n	// добавляем остаток рандомных байт в сообщение, что бы суммарно оно делилось на 16\n	totalLen := len(hash) + len(msg)\n	overflowedLen := totalLen % 16\n	needToAdd := (16 - overflowedLen) % 16\n\n	msg = bytes.Join([][]byte{hash, msg, dry.RandomBytes(needToAdd)}, []byte{})\n", "	totalLen := 20 + len(msg)\n	overflowedLen := totalLen % 16\n	needToAdd := (16 - overflowedLen) % 16\n\n	padded := append(append([]byte{}, msg...), dry.RandomBytes(needToAdd)...)\n	msg = bytes.Join([][]byte{dry.Sha1Byte(padded), padded}, []byte{})\n"))
+mut("06-splitpq-shared-generator", "C06", "global-write", ("internal/math/math.go", "	rnd := rand.New(rand.NewSource(time.Now().UnixNano())) //nolint: gosec смысла нет\n", "	if seedRnd == nil {\n		seedRnd = rand.New(rand.NewSource(time.Now().UnixNano())) //nolint: gosec смысла нет\n	}\n	rnd := seedRnd\n"), ("internal/math/math.go", "func SplitPQ(pq *big.Int) (p1, p2 *big.Int) {\n", "var seedRnd *rand.Rand\n\nfunc SplitPQ(pq *big.Int) (p1, p2 *big.Int) {\n"))
+mut("07-reader-drops-unknown-service-replies", "C07", "dispatch:read-message-is-handed-on", ("mtproto.go", "		m.serviceChannel <- obj\n		return nil\n", "		if _, isFail := obj.(*objects.DHGenFail); !isFail {\n			m.serviceChannel <- obj\n		}\n		return nil\n"))
+mut("09-flood-wait-handled-by-sleeping", "C09", "handled-only-by-reconnect", ("mtproto.go", "	default:\n		return e\n	}\n}", "	case \"FLOOD_WAIT_X\":\n		time.Sleep(time.Second)\n		return nil\n\n	default:\n		return e\n	}\n}"))
+mut("17-flood-wait-handled-by-sleeping", "C17", "handled-only-by-reconnect", ("mtproto.go", "	default:\n		return e\n	}\n}", "	case \"FLOOD_WAIT_X\":\n		time.Sleep(time.Second)\n		return nil\n\n	default:\n		return e\n	}\n}"))
+mut("10-container-header-reused", "C10", "container-item:fresh-per-iteration", ("internal/mtproto/objects/types.go", "	for i := 0; i < count; i++ {\n		msg := new(messages.Encrypted)\n", "	msg := new(messages.Encrypted)\n	for i := 0; i < count; i++ {\n"))
+
+mut("12-path-cleaned-at-construction", "C12", "path:as-given", ("internal/session/file.go", "	return &genericFileSessionLoader{path: path}\n", "	return &genericFileSessionLoader{path: filepath.Clean(path)}\n"))
+mut("13-wrapper-returns-constant-true", "C13", "answer:AccountResetWebAuthorization", ("telegram/methods_gen.go", "func (c *Client) AccountResetWebAuthorization(hash int64) (bool, error) {\n	responseData, err := c.MakeRequest(&AccountResetWebAuthorizationParams{Hash: hash})\n	if err != nil {\n		return false, errors.Wrap(err, \"sending AccountResetWebAuthorization\")\n	}\n\n	resp, ok := responseData.(bool)\n	if !ok {\n		panic(\"got invalid response type: \" + reflect.TypeOf(responseData).String())\n	}\n	return resp, nil\n", "func (c *Client) AccountResetWebAuthorization(hash int64) (bool, error) {\n	responseData, err := c.MakeRequest(&AccountResetWebAuthorizationParams{Hash: hash})\n	if err != nil {\n		return false, errors.Wrap(err, \"sending AccountResetWebAuthorization\")\n	}\n\n	_, ok := responseData.(bool)\n	if !ok {\n		panic(\"got invalid response type: \" + reflect.TypeOf(responseData).String())\n	}\n	return true, nil\n"))
+mut("14-flagindex-only-above-bit-zero", "C14", "flagindex:emitted-iff-conditional", ("internal/cmd/tlgen/gen/tl_gen_structs.go", "		if param.IsOptional {\n			containsOptionalParameters = true\n		}\n", "		if param.IsOptional && param.BitToTrigger > 0 {\n			containsOptionalParameters = true\n		}\n"))
+mut("15-depth-counted-for-pointers-only", "C15", "recursion:gated", (DEC, "	d.depth++\n	defer func() { d.depth-- }()\n	if d.depth > maxNesting {\n		d.err = fmt.Errorf(\"values are nested deeper than %v levels\", maxNesting)\n		return\n	}\n", "	if value.Kind() != reflect.Interface {\n		d.depth++\n		defer func() { d.depth-- }()\n		if d.depth > maxNesting {\n			d.err = fmt.Errorf(\"values are nested deeper than %v levels\", maxNesting)\n			return\n		}\n	}\n"))
+mut("16-table-delete-under-rlock", "C16", "locks:SyncIntObjectChan.Delete", ("internal/utils/sync_stuff.go", "func (s *SyncIntObjectChan) Delete(key int) bool {\n	s.mutex.Lock()\n", "func (s *SyncIntObjectChan) Delete(key int) bool {\n	s.mutex.RLock()\n"), ("internal/utils/sync_stuff.go", "func (s *SyncIntObjectChan) Delete(key int) bool {\n	s.mutex.RLock()\n	_, ok := s.m[key]\n	delete(s.m, key)\n	s.mutex.Unlock()\n", "func (s *SyncIntObjectChan) Delete(key int) bool {\n	s.mutex.RLock()\n	_, ok := s.m[key]\n	delete(s.m, key)\n	s.mutex.RUnlock()\n"))
+mut("17-migrate-falls-back-to-dc-2", "C17", "lookup:the-number-the-server-named", ("mtproto.go", "		newIP, found := m.dclist[dcID]\n", "		if _, known := m.dclist[dcID]; !known && dcID > 5 {\n			dcID = 2\n		}\n		newIP, found := m.dclist[dcID]\n"))
+mut("18-group-check-refuses-two", "C18", "generator:g=2", ("telegram/internal/srp/2fa.go", "DhHandshake.cpp\n\n	return false\n}\n", "DhHandshake.cpp\n\n	if gInt <= 2 {\n		return true\n	}\n\n	return false\n}\n"))
+
 json.dump(M, open('/verif/selftest/mutations.json', 'w'), indent=1, ensure_ascii=False)
 print(len(M), "mutations")
